@@ -190,7 +190,9 @@ def run(ctx):
               "continuation line is blank) with the default; rejected values: ValueError and unchanged paragraph; non-trivial = "
               "distinct accepted multi-line values" % (N, "exhaustive" if ctx.tier != "quick" else "length 5 sampled"),
               "length <= %d, plus line-level family: first line {v, empty} x 1-3 continuation lines over 13 tricky line texts (armor lines, "
-              "field-like, comment-like, '.', blank) x {space, TAB} indentation (pairs exhaustive, triples sampled)" % N, )
+              "field-like, comment-like, '.', blank) x {space, TAB} indentation (pairs exhaustive, triples sampled); the derived "
+              "paragraph classes Dsc, Changes, Release, Sources, Packages, BuildInfo, PdiffIndex get all values of length <= 3, the "
+              "line-level singles and a sample" % N, )
     vals = ["".join(v) for n in range(0, N + 1) for v in itertools.product(ALPHA, repeat=n)]
     if ctx.tier == "quick":
         vals = [v for v in vals if len(v) <= 4] + rng.sample([v for v in vals if len(v) == 5], 6000)
@@ -203,7 +205,15 @@ def run(ctx):
     fam = [[c] for c in conts] + [[c1, c2] for c1 in conts for c2 in conts]
     fam += [[rng.choice(conts) for _ in range(3)] for _ in range(1500 if ctx.tier == "quick" else 17576)]
     vals += [first + "".join("\n" + c for c in cs) for cs in fam for first in ("v", "")]
-    for v in vals:
+    # every paragraph class is a Deb822 paragraph: the derived classes (own validate_input / constructor / iter_paragraphs)
+    # get the values that matter (all short values up to length 3, the hand-picked ones, line-level singles and a sample)
+    short = [v for v in vals if len(v) <= 3] + vals[-len(fam) * 2:][:len(conts) * 2] + \
+        ["1.0\rInjected: yes", "first\n\r\n second", "s\n first\n \n second", "s\n\t", "x\n a: b\n #c", "1.0-1\nInjected: yes",
+         "first\n\nSecond-Paragraph: yes", "1.0-1\n"] + rng.sample(vals, 200)
+    work = [(Deb822, v) for v in vals]
+    for cname in ("Dsc", "Changes", "Release", "Sources", "Packages", "BuildInfo", "PdiffIndex"):
+        work += [(getattr(real, cname), v) for v in short]
+    for Deb822, v in work:
         d = Deb822()
         d["A"] = "1"
         d["B"] = "2"
@@ -215,17 +225,17 @@ def run(ctx):
         except ValueError:
             accepted = False
         except Exception as e:
-            t.failed("assignment raised %r" % (e,), value=v)
+            t.failed("assignment raised %r" % (e,), value=v, cls=Deb822.__name__)
             break
-        t.case(key=v if accepted and "\n" in v else None, sample={"value": v} if accepted and v.count("\n") == 2 else None)
+        t.case(key=(Deb822.__name__, v) if accepted and "\n" in v else None, sample={"value": v} if accepted and v.count("\n") == 2 else None)
         if not accepted:
             if d.dump() != before:
-                t.failed("a rejected value changed the paragraph", value=v, after=d.dump())
+                t.failed("a rejected value changed the paragraph", value=v, after=d.dump(), cls=Deb822.__name__)
                 break
             continue
         if must_reject(v):
             t.failed("a value that ends in a newline / contains an empty line / has a continuation line not starting with "
-                     "whitespace was accepted", value=v)
+                     "whitespace was accepted", value=v, cls=Deb822.__name__)
             break
         text = d.dump()
         blank_cont = any(l.strip(" \t") == "" for l in spec_lines(v + "\n")[:-1][1:])
@@ -234,14 +244,19 @@ def run(ctx):
         for st in settings:
             for fname, form in (("str", text), ("lines", text.splitlines(True))):
                 try:
-                    ps = list(Deb822.iter_paragraphs(form, strict=st))
+                    ps = list(Deb822.iter_paragraphs(form, use_apt_pkg=False, strict=st))
                     one = Deb822(form, strict=st)
+                    if st is not None and Deb822.__name__ in ("Sources", "Packages"):
+                        # these two read with "whitespace does not separate paragraphs" by default
+                        ps_default = list(Deb822.iter_paragraphs(form, use_apt_pkg=False))
+                        if [list(q.keys()) for q in ps_default] != [list(q.keys()) for q in ps]:
+                            raise AssertionError("iter_paragraphs without an explicit setting differs: %r" % [list(q.keys()) for q in ps_default])
                 except Exception as e:
-                    bad = t.failed("re-read raised %r" % (e,), value=v, dump=text, strict=st, form=fname)
+                    bad = t.failed("re-read raised %r" % (e,), value=v, dump=text, strict=st, form=fname, cls=Deb822.__name__)
                     break
                 if len(ps) != 1 or list(ps[0].keys()) != ["A", "B", "C"] or list(one.keys()) != ["A", "B", "C"]:
                     bad = t.failed("an accepted value injected a field or split / truncated the paragraph", value=v, dump=text,
-                                   strict=st, form=fname, paragraphs=[list(p.keys()) for p in ps], single=list(one.keys()))
+                                   cls=Deb822.__name__, strict=st, form=fname, paragraphs=[list(p.keys()) for p in ps], single=list(one.keys()))
                     break
             if bad:
                 break
